@@ -51,10 +51,10 @@ Definition upper_tri (P : Mat) : Mat :=
 Definition nrows (M : Mat) : nat := match M with [] => 0 | c :: _ => length c end.
 
 Definition empty_info (S : Settings) : Info :=
-  {| i_status := UNSOLVED; i_iter := 0; i_rho := rho_init S; i_delta := delta_init S; i_mu := junk; i_sigma := junk;
-     i_primal_step := junk; i_dual_step := junk; i_primal_inf := junk; i_primal_rel_inf := junk; i_dual_inf := junk;
-     i_dual_rel_inf := junk; i_primal_obj := junk; i_dual_obj := junk; i_duality_gap := junk; i_duality_gap_rel := junk;
-     i_factor_retires := 0; i_reg_limit := junk; i_no_primal_update := 0; i_no_dual_update := 0 |}.
+  {| i_status := UNSOLVED; i_iter := 0; i_rho := rho_init S; i_delta := delta_init S; i_mu := 0; i_sigma := 0;
+     i_primal_step := 0; i_dual_step := 0; i_primal_inf := 0; i_primal_rel_inf := 0; i_dual_inf := 0;
+     i_dual_rel_inf := 0; i_primal_obj := 0; i_dual_obj := 0; i_duality_gap := 0; i_duality_gap_rel := 0;
+     i_factor_retires := 0; i_reg_limit := reg_lower_limit S; i_no_primal_update := 0; i_no_dual_update := 0 |}.
 
 (* setup_impl.  A is p x n given as n columns of length p; AT is stored as p columns of length n. *)
 Definition setup (S : Settings) (n p m : nat) (B : Blocks) : res Solver :=
@@ -102,8 +102,9 @@ Definition update (sv : Solver) (B : Blocks) (reuse : bool) : res Solver :=
   let oP := match b_P B with Some _ => true | None => false end in
   let oA := match b_A B with Some _ => true | None => false end in
   let oG := match b_G B with Some _ => true | None => false end in
-  do k <- kkt_update_data d (sv_kkt sv) oP oA oG ;;
-  Ok (sv <| sv_data := d |> <| sv_pc := pc |> <| sv_kkt := k |>).
+  (* reuse = false: the new preconditioner rescales every matrix, all KKT blocks are refreshed *)
+  do k <- kkt_update_data d (sv_kkt sv) (oP || negb reuse) (oA || negb reuse) (oG || negb reuse) ;;
+  Ok (sv <| sv_data := d |> <| sv_pc := pc |> <| sv_kkt := k |> <| sv_kkt_init_state := false |>).
 
 Definition ext_of (v : Vec) : list ext := map Fin v.
 
@@ -135,7 +136,7 @@ Definition solve (fault : nat -> bool) (sv : Solver) : res (Solver * Status) :=
   let S := sv_set sv in let d := sv_data sv in let pc := sv_pc sv in
   let inf0 := (sv_info sv) <| i_status := UNSOLVED |> <| i_iter := 0%Z |> <| i_reg_limit := reg_lower_limit S |>
                 <| i_factor_retires := 0%Z |> <| i_no_primal_update := 0%Z |> <| i_no_dual_update := 0%Z |>
-                <| i_mu := 0 |> <| i_primal_step := 0 |> <| i_dual_step := 0 |>
+                <| i_mu := 0 |> <| i_sigma := 0 |> <| i_primal_step := 0 |> <| i_dual_step := 0 |>
                 <| i_rho := rho_init S |> <| i_delta := delta_init S |> in
   let it0 := entry_iterate d in
   let st0 := {| st_it := it0; st_inf := inf0; st_kkt := sv_kkt sv; st_refine := sv_refine sv;
